@@ -67,7 +67,7 @@ CLAIMED = {
 
  "C16": {
   "text": "Partial: contracts on the real text of TransactionRpcImpl::{fetch_transaction, get_transaction} and ChainRpcImpl::fetch_header (service.rs): the reported status is exactly the function of (stored?, fetch-table entry) the property states (fetched / not_found+re-add / fetching{first_sent} / added{ts}), an existing added or in-flight entry is never reset by a call (gate on add_fetch_*), committed is reported iff the store has the transaction and then with the hash of the header the store returns for it; together with the fetch_gate gates (not_found only after a verified matching response).",
-  "note": "Also under contract: a timed-out peer is disconnected (refresh_all_peers) and a peer's entry is dropped (Peers::remove_peer) only after the fetch entries it serves were re-armed; Storage::get_transaction_with_header returns the stored transaction with the header stored for its own block number; the serving peer's pending request is dropped only with evidence that its entries were re-armed or answered (S12). Not under contract: the bodies of mark_fetching_*_timeout / get_*_to_fetch (which entries are re-armed / selected).",
+  "note": "Also under contract: a timed-out peer is disconnected (refresh_all_peers) and a peer's entry is dropped (Peers::remove_peer) only after the fetch entries it serves were re-armed; Storage::get_transaction_with_header returns the stored transaction with the header stored for its own block number; the serving peer's pending request is dropped only with evidence that its entries were re-armed or answered (S12). The per-entry steps of the fetch tables (unit fetch_table: what a status query reads, which entries are (re)sent, marking missing / timed out / in flight) are under contract; the DashMap iteration around them is not.",
   "ref": "DESIGN.md 5-C16"},
  "C17": {
   "text": "Partial (lock discipline only): gate-by-precondition over the real text of the four operations the property names - BlockFilterRpcImpl::set_scripts, BlockFiltersProcess::execute (with FilterProtocol::update_min_filtered_block_number), the SendBlock arm of SyncProtocol::received, and the fork rollback in LightClientProtocol::commit_prove_state: every mutation of the sync progress (update_filter_scripts, add_matched_blocks, remove_matched_blocks, update_block_number, update_min_filtered_block_number, filter_block, rollback_to_block) is reachable only after the handler has taken the write lock of Peers::matched_blocks (evidence produced by RwLock::write().expect()).",
